@@ -88,4 +88,111 @@ def sorterLess : List String := [
   "return x < y"
 ]
 
+/-! ### round 7: the metric pipeline in front of allocate(), BlockAllocate, and the call sites
+(`Model/C03Pipeline.lean`: `window`/`windowLatest` ← Store.Add + Window.Add/Latest; `latestValid` ← Store.LatestValid;
+`peersetFilter`, `latestMetrics` ← PeersetFilter, Monitor.LatestMetrics; `RawMetric.discard` ← Metric.Discard/Expired;
+`Model/C03Block.lean`: `blockAllocate` ← ClusterRPCAPI.BlockAllocate; `C04.allocIn` ← the allocate() call of Cluster.pin) -/
+
+/-- allocate(): which group goes to which parameter of obtainAllocations -/
+def obtainCall : List String := [
+  "c.obtainAllocations( ctx, hash, rplMin, rplMax, currentMetrics, candidatesMetrics, priorityMetrics, )"
+]
+
+/-- metrics.Store.Add, whole -/
+def storeAdd : List String := [
+  "mtrs.mux.Lock()",
+  "defer mtrs.mux.Unlock()",
+  "name := m.Name",
+  "peer := m.Peer",
+  "mbyp, ok := mtrs.byName[name]",
+  "if !ok { mbyp = make(PeerMetrics) mtrs.byName[name] = mbyp }",
+  "window, ok := mbyp[peer]",
+  "if !ok { window = NewWindow(DefaultWindowCap) mbyp[peer] = window }",
+  "window.Add(m)"
+]
+
+/-- metrics.Store.LatestValid, whole -/
+def storeLatestValid : List String := [
+  "mtrs.mux.RLock()",
+  "defer mtrs.mux.RUnlock()",
+  "byPeer, ok := mtrs.byName[name]",
+  "if !ok { return []*api.Metric{} }",
+  "metrics := make([]*api.Metric, 0, len(byPeer))",
+  "for _, window := range byPeer { m, err := window.Latest() if err != nil || m.Discard() { continue } metrics = append(metrics, m) }",
+  "sortedMetrics := api.MetricSlice(metrics)",
+  "sort.Stable(sortedMetrics)",
+  "return sortedMetrics"
+]
+
+/-- metrics.PeersetFilter, whole -/
+def peersetFilter : List String := [
+  "peerMap := make(map[peer.ID]struct{})",
+  "for _, pid := range peerset { peerMap[pid] = struct{}{} }",
+  "filtered := make([]*api.Metric, 0, len(metrics))",
+  "for _, metric := range metrics { _, ok := peerMap[metric.Peer] if !ok { continue } filtered = append(filtered, metric) }",
+  "return filtered"
+]
+
+/-- pubsubmon.Monitor.LatestMetrics, whole (tracing left in) -/
+def monLatestMetrics : List String := [
+  "ctx, span := trace.StartSpan(ctx, S)",
+  "defer span.End()",
+  "latest := mon.metrics.LatestValid(name)",
+  "if mon.peers == nil { return latest }",
+  "peers, err := mon.peers(ctx)",
+  "if err != nil { return []*api.Metric{} }",
+  "return metrics.PeersetFilter(latest, peers)"
+]
+
+/-- metrics.Window.Add, whole -/
+def windowAdd : List String := [
+  "m.ReceivedAt = time.Now().UnixNano()",
+  "mw.wMu.Lock()",
+  "mw.window.Value = m",
+  "mw.window = mw.window.Next()",
+  "mw.wMu.Unlock()"
+]
+
+/-- metrics.Window.Latest, whole -/
+def windowLatest : List String := [
+  "var last *api.Metric",
+  "var ok bool",
+  "mw.wMu.RLock()",
+  "prevRing := mw.window.Prev()",
+  "last, ok = prevRing.Value.(*api.Metric)",
+  "mw.wMu.RUnlock()",
+  "if !ok || last == nil { return nil, ErrNoMetrics }",
+  "return last, nil"
+]
+
+/-- api.Metric.Discard, whole -/
+def metricDiscard : List String := [
+  "return !m.Valid || m.Expired()"
+]
+
+/-- api.Metric.Expired, whole -/
+def metricExpired : List String := [
+  "expDate := time.Unix(0, m.Expire)",
+  "return time.Now().After(expDate)"
+]
+
+/-- ClusterRPCAPI.BlockAllocate, whole -/
+def blockAllocate : List String := [
+  "if rpcapi.c.config.FollowerMode { return errFollowerMode }",
+  "existing, err := rpcapi.c.PinGet(ctx, in.Cid)",
+  "if err != nil && err != state.ErrNotFound { return err }",
+  "err = rpcapi.c.setupPin(ctx, in, existing)",
+  "if err != nil { return err }",
+  "if in.ReplicationFactorMin < 0 { metrics := rpcapi.c.monitor.LatestMetrics(ctx, pingMetricName) peers := make([]peer.ID, len(metrics)) for i, m := range metrics { peers[i] = m.Peer } *out = peers return nil }",
+  "allocs, err := rpcapi.c.allocate( ctx, in.Cid, existing, in.ReplicationFactorMin, in.ReplicationFactorMax, []peer.ID{}, in.UserAllocations, )",
+  "if err != nil { return err }",
+  "*out = allocs",
+  "return nil"
+]
+
+/-- Cluster.pin(): the arguments of its allocate() call -/
+def pinAllocateCall : List String := [
+  "c.allocate( ctx, pin.Cid, existing, pin.ReplicationFactorMin, pin.ReplicationFactorMax, blacklist, pin.UserAllocations, )"
+]
+
 end CV.C03.Expected
